@@ -99,7 +99,11 @@ func (w *World) invoke(op Op) (out Outcome) {
 			x = r.Interface()
 		}
 		out.Raw = append(out.Raw, x)
-		out.Ret = append(out.Ret, w.describe(x))
+		d := w.describe(x)
+		if op.M == "Addr" && strings.HasPrefix(d, "\"0x") {
+			d = "\"<addr>\"" // pointer text: never logged, never compared
+		}
+		out.Ret = append(out.Ret, d)
 	}
 	return
 }
